@@ -13,6 +13,7 @@ package scanner
 //@ fragment long_close_bracket of scanLong at switch#2 c/case ']'
 //@   prop C12
 //@   arith int
+//@   requires l != nil && 0 <= l.start.Offset && l.start.Offset <= l.pos.Offset && l.pos.Offset <= len(l.input)
 //@   norte
 //@   nocover
 //@   modifies everything()
